@@ -182,15 +182,14 @@ func c09(c *core.Ctx) {
 		}
 		name := core.FuncName(w.fn)
 		val := w.call.Call.Args[2]
-		vc, _, isCall := core.CallResult(val)
-		if !isCall || !core.InfoOf(&vc.Call).Is("fmt.Sprintf") {
+		// the value is assembled by fmt.Sprintf, by concatenation or with strconv: all give (format, operands)
+		format, args, unpacked := core.FormatOf(val)
+		if !unpacked || len(args) == 0 {
 			if r3 {
-				c.Undecided(name+":format", w.call.Pos(), "timeout value is not built by fmt.Sprintf: unrecognised idiom")
+				c.Undecided(name+":format", w.call.Pos(), "timeout value is not assembled from a number and a unit (fmt.Sprintf, concatenation, strconv): unrecognised idiom")
 			}
 			continue
 		}
-		format, _ := core.ConstString(vc.Call.Args[0])
-		args, unpacked := core.VariadicArgs(vc.Call.Args[1])
 		// alternatives (value expression, unit letter, decision point)
 		type alt struct {
 			val    ssa.Value
